@@ -169,6 +169,17 @@ def build_D():
 
 
 BUILDERS = {"A": build_A, "B": build_B, "C": build_C, "D": build_D}
+PARSER_DESC = {
+    "A": "ArgumentParser(exit_on_error=False, prog='app', env_prefix='APP'): --cfg ActionConfigFile, --verbose: bool=False, required subcommands fit(--cfg, --lr: float=0.1, "
+         "--model: Base=lazy_instance(Sub, width=3), --tags: List[str]=[]) and test(--ckpt: Optional[str], positional n: int nargs='?')",
+    "B": "ArgumentParser(exit_on_error=False, prog='app', env_prefix='APP'): --cfg, add_class_arguments(Data, 'data'), add_subclass_arguments(Base, 'model', "
+         "default=lazy_instance(Sub)), add_class_arguments(Head, 'head'), --opt: Callable[[int], Opt]={class_path: Opt, init_args: {lr: 0.2}}, --extra: Optional[Base], "
+         "link_arguments('data.size', 'model.init_args.width'), link_arguments('data.num_classes', 'head.inp', apply_on='instantiate')",
+    "C": "ArgumentParser(exit_on_error=True, prog='app', env_prefix='CAPP', default_env=True, default_config_files=[<tmp>/c_default.yaml 'n: 10, mode: slow'], version='1.0'): "
+         "--cfg, --n: int=1, --items: List[int]=[], --p: Optional[Path_fr], --d: Dict[str,int]={}, --pt: Point=Point(x=1), --mode choices fast|slow, --flag ActionYesNo",
+    "D": "ArgumentParser(exit_on_error=False, prog='app', env_prefix='DAPP'): --cfg, --inner ActionParser(inner: --x: int=1, --model: Base={class_path: Sub}), "
+         "--pts: List[Point]=[], --zoo: Dict[str, Base]={}, --lit: Literal['a','b']='a', --opt_pt: Optional[Point]",
+}
 
 
 def kind_of_label(label):
@@ -679,7 +690,8 @@ def describe(minimal, step, o):
     what = (f"after the history [{', '.join(f'{w}.{o_}' for w, o_ in rel)}] the call {call} = {DESC[(kind, op)]} gives {summary(o)}; "
             f"on a freshly built identical parser it gives {summary(fresh)}")
     case = {"minimal_history": [f"{w}.{o_} = {DESC[(w.rstrip(chr(39)), o_)]}" for w, o_ in rel], "call": f"{call} = {DESC[(kind, op)]}",
-            "parsers": "build_A / build_B / build_C / build_D in bounded/b09_history.py; X' = another parser built by the same function", "fresh": fresh,
+            "parsers": {k: PARSER_DESC[k] for k in sorted({kind} | {w.rstrip("'") for w, _ in rel})}, "note": "X' = another parser built by the same function build_X "
+            "in bounded/b09_history.py; config files are written by write_files()", "fresh": fresh,
             "after_history": o}
     return rel, key, what, case
 
@@ -696,14 +708,24 @@ def classify_all(mismatches, pool):
         """own parser -> K, any other parser of the same kind -> K', parsers of another kind -> their kind"""
         return [((w.rstrip("'") + "'") if w.rstrip("'") == kind and w != kind else w.rstrip("'"), o_) for w, o_ in rel]
 
+    tested_own = set()  # (own history, call, wrong outcome) for which a reduction starting from the parser's own history was already run
+
+    def own_signature(i):
+        history, step, o = mismatches[i]
+        kind = kind_of_label(step[0])
+        return (tuple(x for x in collapse(relative(history, step), kind) if x[0] == kind), kind, step[1], repr(o))
+
     def explained(i):
         history, step, o = mismatches[i]
         kind, op = kind_of_label(step[0]), step[1]
         rel_all = collapse(relative(history, step), kind)
-        for rel_min, wrong, res in known.get((kind, op), []):
-            if wrong == o and is_subsequence(rel_min, rel_all):
+        entries = [e for e in known.get((kind, op), []) if e[1] == o and is_subsequence(e[0], rel_all)]
+        for rel_min, wrong, res in entries:  # an explanation by the parser's own history is preferred
+            if all(w == kind for w, _ in rel_min):
                 return res
-        return None
+        if entries and (not own_signature(i)[0] or own_signature(i) in tested_own):
+            return entries[0][2]
+        return None  # reduce it (the reduction tries the parser's own history first)
 
     while todo:
         rest = []
@@ -727,6 +749,7 @@ def classify_all(mismatches, pool):
         for i, m in zip(now, minimal):
             history, step, o = mismatches[i]
             kind, op = kind_of_label(step[0]), step[1]
+            tested_own.add(own_signature(i))
             if m is None:
                 res = (f"c09:unreproducible:=>{kind}.{op}", "the outcome differed from the fresh parser's once, but not when the same process history was replayed in a new process",
                        {"call": f"{kind}.{op} = {DESC[(kind, op)]}", "process_history": [f"{l}.{o_}" for l, o_ in history][-40:], "fresh": fresh_of(step), "after_history": o})
